@@ -528,7 +528,9 @@ int cmd_run(const RunCfg& cfg) {
         for (int w = 0; w < W; ++w) {
             if (pids[w] < 0) continue;
             Slot& sl = slots[w];
-            if (sl.state == ST_RUNNING && (double)(now - sl.start_ms) > cfg.case_timeout * 1000.0) {
+            uint64_t started = sl.start_ms;
+            if (sl.state == ST_RUNNING && now > started && (double)(now - started) > cfg.case_timeout * 1000.0 &&
+                sl.start_ms == started) {
                 kill(pids[w], SIGKILL);
                 int st;
                 waitpid(pids[w], &st, 0);
